@@ -99,6 +99,10 @@ pub fn check_case(rep: &Report, case: &Case, labels: &[String], local: &mut Loca
             }
             if opt.bits < (1u64 << 28) && actual != opt.bits {
                 ok = false;
+                if actual < opt.bits && !ricebf::admissible_orders(n, order).contains(&sf.part_order) {
+                    // coded outside the search space the statement names (already reported above)
+                    continue;
+                }
                 if actual < opt.bits {
                     rep.machinery_error(&format!("coded size {actual} below brute-force optimum {} for case {}", opt.bits, case.json()));
                     continue;
